@@ -9,7 +9,7 @@ stripped text, ISO 8601 timestamp of the same instant.
 """
 import calendar
 
-from mc import alphabets, core, env, synth, treecheck
+from mc import alphabets, core, env, harness, synth, treecheck
 
 ID = "C16"
 LEVEL = "exploration"
@@ -114,10 +114,8 @@ def execute_seam(case):
     ts = case["devs"][0][3]
     vol[f["off"] : f["off"] + f["w"]] = ts.ljust(f["w"]).encode()
 
-    class M(dict):
-        root = "x"
 
-    attrs = open_volume_directory(M({_seam["name"]: bytes(vol)}), _seam["name"]).attrs
+    attrs = open_volume_directory(harness.mem_mapper({_seam["name"]: bytes(vol)}), _seam["name"]).attrs
     got = attrs.get("creation_datetime")
     want = dt.datetime.strptime(ts[:14], "%Y%m%d%H%M%S") + dt.timedelta(milliseconds=10 * int(ts[14:16]))
     try:
